@@ -92,6 +92,10 @@ def run_job(job):
             W = SymWorld(c)
             c.refute_hook = _extract_input_factory(W)
             u.run(W, sk)
+            if u.expect == "proved":
+                # vacuity guard: everything assumed on this path (preconditions, contract stubs, lemma
+                # conclusions, path condition) must be jointly satisfiable
+                c.cover("vacuity.path_assumptions_satisfiable")
             return None
 
         results = core.explore(run)
@@ -300,8 +304,12 @@ def check_property(prop, tier="quick", seed=0, only_unit=None, jobs=None, verbos
         for o in res["obligations"]:
             if o["kind"] == "cover":
                 vacuity["covers"] += 1
-                if o["status"] != "proved":
-                    crashes.append((res["unit"], res["skeleton"], f"vacuity: cover {o['name']} not satisfiable"))
+                if o["status"] == "refuted":
+                    crashes.append((res["unit"], res["skeleton"], f"vacuity: cover {o['name']} is unsatisfiable (contradictory assumptions on path {o['path']})"))
+                elif o["status"] == "undecided":
+                    vacuity["covers_unknown"] = vacuity.get("covers_unknown", 0) + 1
+                else:
+                    vacuity["covers_sat"] = vacuity.get("covers_sat", 0) + 1
                 continue
             n_obl += 1
             pu["obligations"] += 1
